@@ -5,6 +5,7 @@ Require GenProofs_FrameMeas.
 Require Pauli Sem Uniform RefFold Loops.
 Require Import Stab Act Spec SpecProofs GF2 Gen_GateTable Gen_Frame GenProofs_Frame.
 Require GenProofs_TabMeas.
+Require Run FrameRun.
 
 (* (1) Tie G: every unitary FrameSimulator routine (translated from frame_simulator.inl) equals the documented gate action
        with the sign dropped, on frames of any size and any target list; every fixed unitary of the table is dispatched
@@ -101,3 +102,20 @@ Theorem C02_pair_measurement_segments_measure_the_product : GenProofs_TabMeas.se
 Proof. exact GenProofs_TabMeas.frame_pair_segments_ok. Qed.
 Print Assumptions C02_pair_measurement_segments_measure_the_product.
 
+(* Whole runs under a Pauli frame: if the semantics allows a reference run with results r_k, then for ANY frame F it also allows,
+   from the frame-shifted state, the run whose results are r_k xor [F_k, M_k] with F_k the frame carried through the Cliffords so
+   far; the final state is the frame-shifted final state. Every shot the frame sampler derives from a legal reference sample is a
+   legal record, for circuits of any length. *)
+Theorem C02_framed_copy_of_a_legal_run_is_legal :
+  forall (n : nat) (l : list (Run.op * option bool)) (F : Pauli.pauli) (Sg Sg' : Sem.state),
+  Forall (fun x => FrameRun.ok_op n (fst x)) l -> Refine.wf n F -> Run.sem_run Sg l Sg' ->
+  exists S', Run.sem_run (Sem.shift F Sg) (snd (FrameRun.frun F l)) S' /\
+             FrameRun.eqs n S' (Sem.shift (fst (FrameRun.frun F l)) Sg').
+Proof. exact FrameRun.framed_run_is_legal. Qed.
+Theorem C02_frame_step :
+  forall (n : nat) (F : Pauli.pauli) (o : Run.op) (r : option bool) (Sg Sg' S : Sem.state),
+  FrameRun.ok_op n o -> Refine.wf n F -> FrameRun.eqs n S (Sem.shift F Sg) -> Run.sem_step Sg o r Sg' ->
+  exists S', Run.sem_step S o (snd (FrameRun.fstep F o r)) S' /\
+             FrameRun.eqs n S' (Sem.shift (fst (FrameRun.fstep F o r)) Sg') /\ Refine.wf n (fst (FrameRun.fstep F o r)).
+Proof. exact FrameRun.frame_step. Qed.
+Print Assumptions C02_framed_copy_of_a_legal_run_is_legal. Print Assumptions C02_frame_step.
